@@ -396,6 +396,7 @@ FamCyc(K, CH) ==
 (***************************************************************************)
 (* C19 (dry run) and C01 (edits while commands run).                        *)
 (***************************************************************************)
+GoodOuts(gr) == SetToSeq({gr.stmts[i].outs[1] : i \in {j \in DOMAIN gr.stmts : ~gr.stmts[j].badrspdir}})
 DryShapes == {"chain2", "chain3", "fanin", "fanout", "mixed", "alias", "implicit", "oonly", "valid", "group"}
 FamDry(K, CH) ==
   UNION { {Scn(gr, <<Build(Roots(gr), 2, 1), c, BX(Roots(gr), 2, 1, [dry |-> TRUE]), Build(Roots(gr), 2, 1), Build(Roots(gr), 2, 1)>>) : c \in Pick(CH, Changes(gr))}
@@ -404,6 +405,12 @@ FamDry(K, CH) ==
           \* ninja died while commands were running (they may finish on their own and leave outputs and depfiles behind), then a dry run
           \cup {Scn(gr, <<BX(Roots(gr), 2, 1, [crash |-> [point |-> "start", n |-> n]]), BX(Roots(gr), 2, 1, [dry |-> TRUE]), Build(Roots(gr), 2, 1), Build(Roots(gr), 2, 1)>>) : n \in {1, 2}} :
           gr \in UNION {GraphsS(sh, {"plain", "restat", "gcc", "depfile", "two", "rsp", "gen", "msvc"}, K) : sh \in DryShapes} }
+  \cup
+  \* a dry run that stops early: one statement's response file cannot be written (which a dry run attempts as well) while
+  \* other statements, built before and out of date again, are queued
+  UNION { {Scn(gr, <<Build(GoodOuts(gr), 2, 1), c, BX(Roots(gr), 2, 1, [dry |-> TRUE]), Build(GoodOuts(gr), 2, 1), Build(GoodOuts(gr), 2, 1)>>) :
+              c \in {x \in Changes(gr) : x.op = "touch"}} :
+          gr \in {x \in UNION {GraphsS(sh, {"plain", "gcc", "depfile", "badrsp"}, 3 * K) : sh \in {"indep", "wide4"}} : GoodOuts(x) # <<>> /\ \E i \in DOMAIN x.stmts : x.stmts[i].badrspdir} }
 
 \* a source is edited right after the k-th command start of the second build
 EditRunProfiles == {"plain", "two", "gcc", "depfile", "rsp", "iout"}
@@ -461,6 +468,24 @@ FamClean(K, CH) ==
                            Build(<<>>, 2, 1)>>) : k \in Droppable(gr), n \in BOOLEAN} :
           gr \in CleanGraphs(K) }
 
+(***************************************************************************)
+(* C20, the output stream: what commands print (marks, NUL bytes, ANSI      *)
+(* colour sequences, carriage returns, text that looks like ninja's own     *)
+(* lines, a long run, with and without a final newline), console-pool       *)
+(* statements, failing commands, -j / -k, piped and terminal output; and a  *)
+(* rebuild in which restat prunes statements from the plan.                 *)
+(***************************************************************************)
+OutKinds == {<<>>, <<"mark", "nl">>, <<"mark">>, <<"mark", "nul", "ansi", "mark", "nl">>, <<"bracket", "nl", "mark", "nl">>, <<"mark", "cr", "failed", "nl", "long", "nl">>}
+WithOut(gr, oa, pa) == [gr EXCEPT !.stmts = [i \in DOMAIN gr.stmts |-> IF gr.stmts[i].phony THEN gr.stmts[i] ELSE [outp |-> oa[i]] @@ [gr.stmts[i] EXCEPT !.pool = pa[i]]]]
+StatusGraphs(K) ==
+  UNION { UNION { {WithOut(gr, oa, pa) : oa \in RandomSubset(2, [1..Len(gr.stmts) -> OutKinds]), pa \in RandomSubset(2, [1..Len(gr.stmts) -> {"", "", "console"}])} :
+                  gr \in GraphsS(sh, {"plain", "restat"}, K) } : sh \in {"wide4", "widejoin", "widephony", "fanin", "fanout", "chain3", "indep"} }
+FamStatus(K, CH) ==
+  UNION { {Scn(gr, <<BX(Roots(gr), jk[1], jk[2], [fail |-> f, printer |-> m])>>) :
+              jk \in {1, 3, 4} \X {1, 0}, m \in {"pipe", "tty"}, f \in {<<>>} \cup Pick(CH, {FailRec(S, 1, FALSE) : S \in FailSets(gr)})}
+          \cup {Scn(gr, <<Build(Roots(gr), 2, 1), c, BX(Roots(gr), 3, 1, [printer |-> m])>>) : m \in {"pipe", "tty"}, c \in Pick(CH, {x \in Changes(gr) : x.op = "touch"})} :
+          gr \in StatusGraphs(K) }
+
 \* graphs for the design-level model checking of NinjaImplMC (no histories: TLC explores them)
 FamMC(K, CH) ==
   UNION {GraphsS(sh, {"plain", "restat", "gcc", "two", "gen", "depfile"}, K) : sh \in {"chain2", "fanin", "fanout", "implicit", "oonly", "alias", "valid", "mixed", "chain3"}}
@@ -488,6 +513,7 @@ Family(name) ==
     [] name = "jobs" -> FamJobs(ParK, ParCH)
     [] name = "intr" -> FamIntr(ParK, ParCH)
     [] name = "crash" -> FamCrash(ParK, ParCH)
+    [] name = "status" -> FamStatus(ParK, ParCH)
 
 Fam == IF "FAM" \in DOMAIN IOEnv THEN IOEnv.FAM ELSE "sched"
 Out == IF "OUT" \in DOMAIN IOEnv THEN IOEnv.OUT ELSE "scenarios.ndjson"
